@@ -275,7 +275,8 @@ class C14(Prop):
             'triggers start / restart / daemon start); all 36 '
             'before_stop/after_stop assignments under stop and restart; '
             'before_signal/after_signal under signal (several signals incl. '
-            'SIGKILL), kill and stop; every start hook replaced at run time by '
+            'SIGKILL), kill and stop, the latter two also with stop_children; '
+            'every start hook replaced at run time by '
             'a set request (6 old x 6 new outcome / flag pairs); judged against a reference model of '
             'the documented gating. random part: per-call varying hook '
             'scripts with worker deaths at kernel-call boundaries. a case is '
@@ -340,6 +341,13 @@ class C14(Prop):
                     cases.append({'c14': {'kind': 'signal', 'hooks': hooks,
                                           'beh': beh, 'np': 2, 'cmd': cmd,
                                           'signum': sg}})
+                    if cmd != 'signal':
+                        # the same with stop_children: the stop signal takes
+                        # another path to the worker, the gate is the same
+                        cases.append({'c14': {
+                            'kind': 'signal', 'hooks': hooks, 'beh': beh,
+                            'np': 2, 'cmd': cmd, 'signum': sg,
+                            'stop_children': True}})
         # pairs of hooks from different phases
         for a in START_HOOKS:
             for b in ('before_stop', 'after_stop', 'before_signal'):
@@ -357,6 +365,7 @@ class C14(Prop):
             rng = random.Random('c14/%s' % master)
             cases = [c for c in cases if rng.random() < 0.1 or
                      c['c14'].get('np') == 0 or c['c14'].get('ini') or
+                     c['c14'].get('stop_children') or
                      (c['c14'].get('rehook') and list(
                          c['c14']['rehook'].values())[0][0] == 'raise')]
         return cases
@@ -383,6 +392,8 @@ class C14(Prop):
         else:
             hooks = dict((k, tuple(v)) for k, v in c['hooks'].items())
             cfg = _cfg(seed, c['np'], c['beh'], hooks, True)
+            if c.get('stop_children'):
+                cfg['watchers'][0]['opts']['stop_children'] = True
         c['hooks'] = hooks
         if c.get('rehook'):
             c['rehook'] = dict((k, tuple(v)) for k, v in c['rehook'].items())
